@@ -131,6 +131,24 @@ def child_env():
     return env
 
 
+_PIPE_OK = [True]
+
+
+def say(line):
+    """print that survives a reader that went away (`./check ... | head`): the exit status must not depend on it"""
+    if not _PIPE_OK[0]:
+        return
+    try:
+        print(line)
+        sys.stdout.flush()
+    except BrokenPipeError:
+        _PIPE_OK[0] = False
+        try:
+            sys.stdout = open(os.devnull, "w")
+        except OSError:
+            pass
+
+
 def main(argv=None):
     ap = argparse.ArgumentParser(prog="check")
     ap.add_argument("prop")
@@ -254,12 +272,12 @@ def main(argv=None):
         with open(os.path.join(ROOT, "evidence", "%s.json" % prop), "w") as f:
             json.dump(evidence, f, indent=1, default=repr)
 
-    print("%s %s seed=%d: %d evaluations, %d distinct non-trivial, %.1fs, shards=%d%s" % (
+    say("%s %s seed=%d: %d evaluations, %d distinct non-trivial, %.1fs, shards=%d%s" % (
         prop, args.tier, args.seed, total["evaluations"], len(total["sigs"]), wall, nshards, " (truncated by time budget)" if total["truncated"] else ""))
     brief = {k: v for k, v in stats.items() if isinstance(v, (int, float))}
-    print("  observed: %s" % json.dumps(brief, sort_keys=True)[:1500])
+    say("  observed: %s" % json.dumps(brief, sort_keys=True)[:1500])
     for m, vs in sorted(hits.items()):
-        print("KNOWN-FINDING: property=%s %s (%d occurrences this run; e.g. %s)" % (prop, known_mech[m]["what"], len(vs), str(vs[0].get("detail"))[:200]))
+        say("KNOWN-FINDING: property=%s %s (%d occurrences this run; e.g. %s)" % (prop, known_mech[m]["what"], len(vs), str(vs[0].get("detail"))[:200]))
     seen_mech = {}
     for v in new:
         m = v.get("mechanism")
@@ -267,14 +285,14 @@ def main(argv=None):
         if seen_mech[m] > 2 or sum(1 for _ in seen_mech) > MAX_REPLAYS and seen_mech[m] > 1:
             continue
         path = write_replay(prop, args.tier, args.seed, v, sum(seen_mech.values()))
-        print("VIOLATION property=%s replay=%s" % (prop, path))
-        print("  mechanism=%s detail=%s" % (m, str(v.get("detail"))[:600]))
+        say("VIOLATION property=%s replay=%s" % (prop, path))
+        say("  mechanism=%s detail=%s" % (m, str(v.get("detail"))[:600]))
     if new:
-        print("  (%d violations in total, mechanisms: %s)" % (len(new), json.dumps(seen_mech)))
+        say("  (%d violations in total, mechanisms: %s)" % (len(new), json.dumps(seen_mech)))
         return 1
     if inconclusive:
         for r in inconclusive:
-            print("INCONCLUSIVE property=%s reason=%s" % (prop, r[:1200]))
+            say("INCONCLUSIVE property=%s reason=%s" % (prop, r[:1200]))
         return 2
     return 0
 
